@@ -3,6 +3,7 @@ from contracts import rt_transform
 from pyvc.report import Report
 from pyvc.rtver import RtCx
 from .common import run_rt
+from . import wiring
 
 
 def run(tier, seed):
@@ -13,6 +14,7 @@ def run(tier, seed):
                      'lists rebuilt element-wise, everything else passes through. The inner callback chain: callbacks in the order given; the only heap '
                      'write is the metadata copy into a metadata-less replacement.')
     run_rt(rep, rt_transform.TRANSFORM, tier)
+    wiring.metadata_obligations(rep, tier)
     if tier == 'thorough':
         c = rt_transform.TRANSFORM[0]
         bad, tried, bound = c.bounded(RtCx(c, {}))
